@@ -240,3 +240,42 @@ func H_C17_pairs() {
 		vfAssert(out == no, "a missing step or nil value in either argument: not set")
 	}
 }
+
+// H_C17_shadowedNil: isset of an identifier (and of chains / indexes rooted at it) whose
+// innermost binding holds nil - declared nil, the value half of a missed lookup, a nil
+// pointer - while a same-named non-nil variable exists further out (template scope,
+// Execute variable, global): false; interface-held typed nils (elements of []interface{},
+// map[string]interface{} values, interface fields) are not set either.
+//
+//gosym:reach checked
+func H_C17_shadowedNil() {
+	form := ndChoice("form", 10)
+	srcs := []string{
+		`{{ v := "outer" }}{{ if true }}{{ v := nil }}{{ isset(v) }}{{ end }}`,
+		`{{ v := "outer" }}{{ if true }}{{ v, ok := m["absent"] }}{{ isset(v) }}{{ end }}`,
+		`{{ v := m }}{{ if true }}{{ v := nil }}{{ isset(v.k) }}{{ end }}`,
+		`{{ if true }}{{ ev := nil }}{{ isset(ev) }}{{ end }}`,
+		`{{ if true }}{{ gv := nilPtr }}{{ isset(gv) }}{{ end }}`,
+		`{{ isset(ifs[0]) }}`,
+		`{{ isset(ifs[1]) }}`,
+		`{{ isset(ifs[2]) }}`,
+		`{{ isset(ifm.p) }}`,
+		`{{ isset(one, ifs[0]) }}`,
+	}
+	set := hxSet(nil, "/m.jet", srcs[form])
+	set.AddGlobal("gv", "global")
+	vars := make(VarMap)
+	vars.Set("ev", "execute")
+	vars.Set("m", map[string]string{"k": "v"})
+	var np *c17Node
+	var nm map[string]int
+	var ns []int
+	vars.Set("nilPtr", np)
+	vars.Set("ifs", []interface{}{np, nm, ns})
+	vars.Set("ifm", map[string]interface{}{"p": np})
+	vars.Set("one", 1)
+	out, err := hxExec(set, "/m.jet", vars, nil)
+	vfReach("checked")
+	vfAssert(err == nil, "isset never fails")
+	vfAssert(out == "false", "the innermost binding decides; a nil held in an interface is not set")
+}
